@@ -14,6 +14,7 @@ sys.path.insert(0, os.path.dirname(os.path.abspath(__file__)))
 from rustlex import (find_block_open, strip_comments, find_matching, find_depth0, scan_depth0, split_depth0, norm_ws, line_of,
                      skip_literal, LexError)
 from rustitems import (split_items, parse_fn, parse_impl, parse_struct, strip_inner_attrs, generic_args, Item)
+import sidecar
 from sidecar import parse_sidecar, Contract
 
 
@@ -30,6 +31,8 @@ DROP_TRAIT_IMPLS = re.compile(
     r'|^serde::|^Serialize<|^Deserialize<|^(?:serde::)?(?:Serialize|Deserialize)\b')
 DEBUG_TRAIT = re.compile(r'^(?:core::fmt::|fmt::)?Debug$')
 ZEROIZE_TRAIT = re.compile(r'^(?:Zeroize|Drop)$')
+
+DEFAULT_ENTRY_HINTS = 'broadcast use crate::vstdx::group_cow;\nproof { crate::vspec::use_algebra::<C>(); crate::vspec::use_id_order::<C>(); }\n'
 
 STD_USE = ('#[allow(unused_imports)] use vstd::prelude::*; #[allow(unused_imports)] use crate::vprel::*; '
            '#[allow(unused_imports)] use crate::vspec::*;')
@@ -60,6 +63,24 @@ class Unit:
     def __init__(self, cfg, contracts):
         self.cfg = cfg
         self.contracts = {c.key: c for c in contracts}
+        # cfg['strip_clauses'] = {function key: [clause names] | '*'}: clauses that do not hold in this unit's world are NOT emitted (the
+        # function stays verified against the rest; callers learn nothing from a stripped clause).  '*' removes the whole block.
+        for k, names in cfg.get('strip_clauses', {}).items():
+            c = self.contracts.get(k)
+            if c is None:
+                raise ExtractError('strip_clauses: no sidecar block for %s' % k)
+            if getattr(c, 'overrides', None):
+                continue      # the unit's own override block is taken as written
+            if names == '*':
+                c.used = True
+                del self.contracts[k]
+                continue
+            have = set(cl.name for cl in c.ensures)
+            for nm in names:
+                if nm not in have:
+                    raise ExtractError('strip_clauses: %s has no ensures clause %r' % (k, nm))
+            c.ensures = [cl for cl in c.ensures if cl.name not in names]
+            c.stripped = list(names)
         self.rules = {}            # rule -> count
         self.functions = []        # per-function metadata
         self.dropped = []          # dropped items (file, line, what, why)
@@ -67,6 +88,31 @@ class Unit:
 
     def rule(self, name, n=1):
         self.rules[name] = self.rules.get(name, 0) + n
+
+    def locate(self, rel):
+        """-> (absolute path, repo-relative name) of a module file.  `rel` is relative to cfg['root'] (the unit's own crate) or, for a
+        module taken from ANOTHER crate of the workspace, an absolute path / a path relative to the repository root (cfg['repo_root'],
+        default: two levels above cfg['root'])."""
+        cfg = self.cfg
+        repo_root = cfg.get('repo_root') or os.path.normpath(os.path.join(cfg['root'], '..', '..'))
+        if os.path.isabs(rel):
+            return rel, os.path.relpath(rel, repo_root)
+        own = os.path.join(cfg['root'], rel)
+        if os.path.exists(own):
+            return own, os.path.join(cfg['repo_prefix'], rel)
+        return os.path.join(repo_root, rel), rel
+
+    def read_verif_file(self, rel):
+        """a hand-written prelude/lemma file, with the unit's `prelude_rewrites` [(file, old, new)] applied (exact text, each must
+        match exactly once: fail closed)"""
+        txt = open(os.path.join(self.cfg['verif_root'], rel)).read()
+        for (f, old, new) in self.cfg.get('prelude_rewrites', ()):
+            if f == rel:
+                if txt.count(old) != 1:
+                    raise ExtractError('prelude rewrite of %s: text %r occurs %d times (expected once)' % (rel, old[:60], txt.count(old)))
+                txt = txt.replace(old, new)
+                self.rule('E14.prelude_rewrite')
+        return txt
 
     # ------------------------------------------------------------------------------------------
     def cfg_dropped(self, attrs):
@@ -87,19 +133,33 @@ class Unit:
         return first in self.local_mods
 
     # ------------------------------------------------------------------------------------------
-    def process_file(self, relpath, modpath):
-        path = os.path.join(self.cfg['root'], relpath)
+    def read_module(self, relpath):
+        """-> (comment-stripped source, raw source, repo-relative name).  A module taken from another crate of the workspace gets the
+        unit's `path_rewrites` [(regex, replacement)] applied (E0: `frost_core::` -> `crate::` etc.; line structure is preserved)."""
+        path, repo_rel = self.locate(relpath)
         raw = open(path).read()
         src = strip_comments(raw)
+        if not repo_rel.startswith(self.cfg['repo_prefix'] + '/'):
+            for rx, to in self.cfg.get('path_rewrites', ()):
+                src, k = re.subn(rx, to, src)
+                if k:
+                    self.rule('E0.foreign_path_rewritten', k)
+        return src, raw, repo_rel
+
+    def process_file(self, relpath, modpath):
+        src, raw, repo_rel = self.read_module(relpath)
+        # per-module `use` header and entry hints (a module of another crate has its own names: no glob import of the contract vocabulary)
+        self.std_use = self.cfg.get('module_use', {}).get(modpath, STD_USE)
+        self.entry_hints = self.cfg.get('module_entry_hints', {}).get(modpath, DEFAULT_ENTRY_HINTS)
         # inner attributes / module docs at file top
         items = split_items(src)
-        return self.process_items(items, src, raw, relpath, modpath)
+        return self.process_items(items, src, raw, repo_rel, modpath)
 
     def process_items(self, items, src, raw, relpath, modpath):
         """Returns (verus_text, plain_text): items placed inside `verus!{}` and plain-Rust items."""
         V = []   # inside verus!
         P = []   # outside
-        repo_rel = os.path.join(self.cfg['repo_prefix'], relpath)
+        repo_rel = relpath      # repo-relative name of the file (process_file resolves it)
         for it in items:
             why = self.cfg_dropped(it.attrs)
             if why:
@@ -134,7 +194,7 @@ class Unit:
                 self.inline_mods = getattr(self, 'inline_mods', []) + [it.name]
                 v, p = self.process_items(inner_items, it.text, raw, relpath, sub_mod)
                 self.inline_mods = self.inline_mods[:-1]
-                V.append('} // verus!\npub mod %s {\n%s\nverus! {\n%s\n} // verus!\n%s\n} // mod %s\nverus! {' % (it.name, STD_USE, v, p, it.name))
+                V.append('} // verus!\npub mod %s {\n%s\nverus! {\n%s\n} // verus!\n%s\n} // mod %s\nverus! {' % (it.name, self.std_use, v, p, it.name))
                 continue
             if k in ('struct', 'enum'):
                 v, p = self.process_type(it, repo_rel, modpath)
@@ -156,7 +216,16 @@ class Unit:
                 V.append(re.sub(r'^pub\([^)]*\)', 'pub', it.text))
                 continue
             if k == 'trait':
-                raise ExtractError('%s:%d: trait definition outside the prelude is not covered by the rules' % (repo_rel, it.line))
+                if repo_rel.startswith(self.cfg['repo_prefix'] + '/'):
+                    raise ExtractError('%s:%d: trait definition outside the prelude is not covered by the rules' % (repo_rel, it.line))
+                # a helper trait of another crate (method declarations only): kept verbatim, made public (E3)
+                b = find_block_open(it.text)
+                for sub in split_items(it.text, b + 1, find_matching(it.text, b)):
+                    if sub.kind != 'fn' or parse_fn(sub.text).has_body:
+                        raise ExtractError('%s:%d: trait %s has items other than method declarations' % (repo_rel, it.line, it.name))
+                V.append('#[verifier::allow(undeclared_external_trait)]\n' + re.sub(r'^(pub(\([^)]*\))?\s+)?', 'pub ', it.text))
+                self.rule('E0.foreign_trait_kept')
+                continue
             self.dropped.append((repo_rel, it.line, norm_ws(it.text)[:70], 'unclassified item'))
             self.rule('E1.other_item_dropped')
         return '\n'.join(x for x in V if x), '\n'.join(x for x in P if x)
@@ -287,13 +356,22 @@ class Unit:
         where = (' ' + im.where) if im.where else ''
         if im.trait and DEBUG_TRAIT.match(im.trait):
             return '', self.debug_stub(im.ty.split('<')[0], im.generics, im.where) if False else self._debug_stub_for(im)
-        if im.trait and DROP_TRAIT_IMPLS.search(im.trait):
+        if im.trait and (DROP_TRAIT_IMPLS.search(im.trait) or any(re.search(rx, im.trait) for rx in self.cfg.get('drop_trait_impls', ()))):
             self.rule('E2.trait_impl_dropped.' + re.sub(r'\W.*', '', im.trait.split('::')[-1]))
             self.dropped.append((repo_rel, it.line, 'impl ' + im.key, 'trait impl outside the Verus unit'))
             return '', ''
         V = []
         P = []
         X = []
+        # sidecar `impl <file> :: <impl header>` block: items the prelude trait requires on top of the repo's methods (definitions of the
+        # trait's spec functions, the T3 axioms as external_body proof fns)
+        ic = self.contracts.get('impl ' + repo_rel + ' :: ' + im.key)
+        if ic is not None:
+            ic.used = True
+            V.append('\n'.join(ic.extra))
+            self.rule('E11.impl_spec_items')
+        if im.trait == 'Ciphersuite' and not repo_rel.startswith(self.cfg['repo_prefix'] + '/'):
+            return self.process_ciphersuite_impl(it, im, repo_rel, modpath, V)
         for sub in im.items:
             why = self.cfg_dropped(sub.attrs)
             if why:
@@ -328,17 +406,102 @@ class Unit:
             out_v += '\n' + '\n'.join(X)
         return out_v, out_p
 
+    @staticmethod
+    def param_names(params):
+        out = []
+        for prm in split_depth0(params, ',', angle=True):
+            prm = prm.strip()
+            if prm:
+                out.append(re.sub(r'^mut\s+', '', prm.split(':')[0].strip()))
+        return out
+
+    def process_ciphersuite_impl(self, it, im, repo_rel, modpath, V):
+        """E10b: `impl Ciphersuite for X` of a concrete suite.  Verus rejects a trait-impl method that calls a function generic over
+        the trait at the implementing type ("cyclic self-reference": method -> f::<X> -> impl -> method), which every hook does.  So,
+        as for the default bodies (E10), each method body is emitted as a free function `hook_<name>` (text unchanged except
+        `Self` -> X) and VERIFIED there against (i) the trait-level contract of the hook (`hook_ensures` and `call_ensures` of
+        contracts/hooks.vc with Self -> X, parameters renamed positionally) and (ii) its own sidecar block; the impl method is the
+        delegation `{ hook_<name>(args) }` (external_body: its inherited trait contract is exactly what was verified).  A hook the suite
+        does not override gets the body `default_<name>::<X>(args)` -- the meaning of "not overridden" -- and is verified the same way, so
+        the impl-level definitions of the trait spec functions are CHECKED against the behaviour for every hook.  `const ID` is dropped
+        (the prelude trait omits it: only serde code uses it)."""
+        ty = im.ty
+
+        def deself(t):
+            t = re.sub(r'\bSelf\s*::\s*(Group|HashOutput|SignatureSerialization)\b', r'<%s as Ciphersuite>::\1' % ty, t)
+            return re.sub(r'\bSelf\b', ty, t)
+        F = []
+        have = set()
+        subs = []
+        for sub in im.items:
+            why = self.cfg_dropped(sub.attrs)
+            if why:
+                self.rule('E1.cfg_item_dropped')
+                continue
+            sub.line = it.line + it.text.count('\n', 0, sub.off)
+            sub.end_line = sub.line + sub.text.count('\n')
+            if sub.kind == 'const' and sub.name == 'ID':
+                self.rule('E11.const_id_dropped')
+                continue
+            if sub.kind != 'fn':
+                V.append(sub.text)
+                continue
+            subs.append(sub)
+            have.add(sub.name)
+        hook_info = getattr(self, 'hook_info', {})
+        for name, h in hook_info.items():
+            if name in have:
+                continue
+            args = ', '.join(self.param_names(h['params']))
+            ntp = len([g for g in (h['generics'][1:-1].split(',') if h['generics'] else []) if g.strip() and not g.strip().startswith("'")])
+            text = 'fn %s%s(%s)%s %s {\n    crate::traits_defaults::default_%s::<Self%s>(%s)\n}' % (
+                name, h['generics'], h['params'], (' -> ' + h['ret']) if h['ret'] else '', h['where'], name, ', _' * ntp, args)
+            sub = Item([], text, 0, text)
+            sub.line, sub.end_line = it.line, it.line
+            sub.synth = True
+            subs.append(sub)
+            self.rule('E10b.hook_not_overridden_uses_default')
+        for sub in subs:
+            f = parse_fn(sub.text)
+            key = repo_rel + ' :: ' + im.key + ' :: ' + f.name
+            h = hook_info.get(f.name)
+            inject = []
+            if h and h['contract'] is not None:
+                hc = h['contract']
+                ren = dict(zip(self.param_names(h['params']), self.param_names(f.params)))
+
+                def adapt(t):
+                    t = deself(t)
+                    for a, b in ren.items():
+                        if a != b:
+                            t = re.sub(r'(?<![\w.])%s\b' % re.escape(a), b, t)
+                    return t
+                for cl in hc.hook_ensures + hc.call_ensures:
+                    inject.append((cl.kind, cl.name, adapt(cl.text)))
+            free = Item(sub.attrs, deself(re.sub(r'\bfn\s+%s\b' % f.name, 'fn hook_%s' % f.name, sub.text, 1)), sub.off, sub.text)
+            free.line, free.end_line = sub.line, sub.end_line
+            v, p, extra = self.process_fn(free, None, repo_rel, modpath, key=key, inject=inject, src_text=sub.text)
+            F.append(v)
+            if extra:
+                F.append(extra)
+            ret = (' -> %s' % f.ret) if f.ret else ''
+            where = ('\n    ' + f.where) if f.where else ''
+            V.append('#[verifier::external_body]\nfn %s%s(%s)%s%s\n{ hook_%s(%s) }' % (f.name, f.generics, f.params, ret, where, f.name, ', '.join(self.param_names(f.params))))
+            self.rule('E10b.hook_body_to_free_fn')
+        hdr = 'impl%s %s%s' % (im.generics, im.key, (' ' + im.where) if im.where else '')
+        return hdr + ' {\n' + '\n'.join(V) + '\n}\n' + '\n'.join(F), ''
+
     def _debug_stub_for(self, im):
         self.rule('E2.debug_stub')
         where = (' ' + im.where) if im.where else ''
         return 'impl%s core::fmt::Debug for %s%s { fn fmt(&self, _f: &mut core::fmt::Formatter<\'_>) -> core::fmt::Result { Ok(()) } }' % (im.generics, im.ty, where)
 
     # ------------------------------------------------------------------------------------------
-    def process_fn(self, it, im, repo_rel, modpath):
+    def process_fn(self, it, im, repo_rel, modpath, key=None, inject=(), src_text=None):
         """Returns (verus_text, plain_text, extra_items_text)."""
         f = parse_fn(it.text)
         inl = ''.join(m + ' :: ' for m in getattr(self, 'inline_mods', []))
-        key = repo_rel + ' :: ' + inl + ((im.key + ' :: ') if im else '') + f.name
+        key = key or (repo_rel + ' :: ' + inl + ((im.key + ' :: ') if im else '') + f.name)
         c = self.contracts.get(key)
         if c is not None:
             c.used = True
@@ -349,13 +512,19 @@ class Unit:
                 mode = 'external'
             if key in self.cfg.get('drop', ()):
                 mode = 'drop'
-            if mode == 'assumed' and key not in self.cfg.get('no_inline', ()) and self.transparent_body(f):
+            if mode == 'assumed' and key not in self.cfg.get('no_inline', ()) and not inject and self.transparent_body(f) \
+                    and not any(re.search(rx, key) for rx in self.cfg.get('elide_body', ())):
                 mode = 'transparent'
         tybase = ''
         if im is not None:
             tybase = re.sub(r'<.*$', '', im.ty.strip().lstrip('&').strip()).split('::')[-1] + '::'
         vname = '::'.join([x for x in [self.cfg.get('crate_name', 'unit'), modpath.replace('::', '::')] if x]) + '::' + tybase + f.name
-        meta = dict(key=key, verus_name=vname, file=repo_rel, lines=[it.line, it.end_line], sha256_source=sha(it.text), mode=mode,
+        if inject and mode != 'verified':
+            if c is not None or any(re.search(rx, key) for rx in self.cfg.get('elide_body', ())):
+                mode = 'assumed'      # an explicit `mode assumed` block, or a body outside the model (elided below)
+            else:
+                mode = 'verified'     # a hook without a sidecar block is still verified against the trait-level contract
+        meta = dict(key=key, verus_name=vname, file=repo_rel, lines=[it.line, it.end_line], sha256_source=sha(src_text or it.text), mode=mode,
                     serves=(c.serves if c else []), rules=[], contract_file=(os.path.relpath(c.file, self.cfg['verif_root']) if c else None))
         self.functions.append(meta)
         if mode == 'drop':
@@ -383,12 +552,20 @@ class Unit:
         attrs = []
         extra = ''
         if c is not None:
-            contract_txt = self.contract_text(c)
+            contract_txt = self.contract_text(c, inject=inject, key=key)
             attrs += c.attrs
             extra = '\n'.join(c.extra)
+        elif inject:
+            contract_txt = self.contract_text(None, inject=inject, key=key)
         if mode == 'assumed':
             attrs.append('#[verifier::external_body]')
             new_body = body
+            if any(re.search(rx, key) for rx in self.cfg.get('elide_body', ())):
+                # the body uses an external API outside the unit's model (it would not even type-check here); only the signature and the
+                # assumed contract are emitted
+                new_body = '{ unimplemented!() }'
+                self.rule('E9.assumed_body_elided')
+                meta['rules'].append('E9:body_elided')
         elif mode == 'transparent':
             # E12: a body that is one constructor/field expression is its own specification (inlining)
             new_body = body
@@ -403,6 +580,8 @@ class Unit:
             new_body = self.transform_body(body, c, key, meta, f)
         else:
             raise ExtractError('%s: unknown mode %r' % (key, mode))
+        if mode == 'transparent' and inject:
+            raise ExtractError('%s: internal: transparent hook' % key)
         params = f.params
         sig = '%sfn %s%s(%s)%s%s' % (prefix, f.name, f.generics, params, ret, where)
         out = '/*@FN %s*/\n%s%s%s\n%s\n/*@ENDFN*/' % (key, ''.join(a + '\n' for a in attrs), sig, contract_txt, new_body)
@@ -425,8 +604,9 @@ class Unit:
             return False
         return True
 
-    def contract_text(self, c):
+    def contract_text(self, c, inject=(), key=None):
         parts = []
+        key = key or c.key
 
         def clauses(kind, lst):
             if not lst:
@@ -434,10 +614,12 @@ class Unit:
             parts.append('\n    %s' % kind)
             for cl in lst:
                 txt = cl.text.strip().rstrip(',')
-                parts.append('\n        /*@CL %s|%s|%s|%d*/ (%s),' % (c.key, cl.kind, cl.name, txt.count('\n'), txt))
-        clauses('requires', c.requires)
-        clauses('ensures', c.ensures)
-        if c.decreases:
+                parts.append('\n        /*@CL %s|%s|%s|%d*/ (%s),' % (key, cl.kind, cl.name, txt.count('\n'), txt))
+        from sidecar import Clause
+        clauses('requires', c.requires if c else [])
+        # E10b: trait-level clauses of a hook (kind hook_ensures / call_ensures) are verified on the concrete suite's body
+        clauses('ensures', (c.ensures if c else []) + [Clause(k, n, t) for (k, n, t) in inject])
+        if c and c.decreases:
             parts.append('\n    decreases %s' % c.decreases.strip())
         return ''.join(parts)
 
@@ -497,7 +679,7 @@ class Unit:
             entry = '\n'.join(c.entry)
         gen_c = re.search(r'\bC\b', (f.generics or '')) or True
         if self.cfg.get('auto_algebra', True) and not (c and c.nohints):
-            entry = 'broadcast use crate::vstdx::group_cow;\nproof { crate::vspec::use_algebra::<C>(); crate::vspec::use_id_order::<C>(); }\n' + entry
+            entry = getattr(self, 'entry_hints', DEFAULT_ENTRY_HINTS) + entry
         if self.cfg.get('canary'):
             # vacuity guard (DESIGN 2.7): with this flag every verified function must FAIL
             entry = entry + '\nassert(false); /*@CANARY*/'
@@ -987,6 +1169,8 @@ class Unit:
                         parts.append('\n        /*@HCL %s|hook_ensures|%s|%d*/ (%s),' % (key, cl.name, cl.text.strip().count('\n'), cl.text.strip().rstrip(',')))
                 htext = ''.join(parts)
             hooks.append('    fn %s%s(%s)%s%s%s;' % (f.name, f.generics, f.params, ret, where, htext))
+            self.hook_info = getattr(self, 'hook_info', {})
+            self.hook_info[f.name] = dict(generics=f.generics, params=f.params, ret=f.ret, where=f.where, contract=c)
             if c and c.call_ensures:
                 # hooks whose contract cannot be stated inside the trait (a `Cow<T>` result needs `T: Clone`, whose impl depends on the
                 # trait: cyclic): every call `<C>::hook(..)` in verified code is routed through this wrapper, whose body is exactly that
@@ -1024,7 +1208,7 @@ class Unit:
                             % (dkey, ''.join(a + '\n' for a in attrs), f.name, gen2, subst(f.params), subst(ret), subst(where), subst(ctext), body))
             if c and c.extra:
                 defaults.append('\n'.join(c.extra))
-        prelude = open(os.path.join(cfg['verif_root'], cfg['traits_prelude'])).read()
+        prelude = self.read_verif_file(cfg['traits_prelude'])
         if '//@HOOKS' not in prelude:
             raise ExtractError('prelude traits file lacks the //@HOOKS marker')
         prelude = prelude.replace('//@HOOKS', '\n'.join(hooks))
@@ -1048,14 +1232,14 @@ class Unit:
         # prelude (crate root level text, already containing its own verus! blocks)
         for p in cfg.get('prelude_files', []):
             out.append('// ===== prelude: %s =====' % p)
-            out.append(open(os.path.join(cfg['verif_root'], p)).read())
+            out.append(self.read_verif_file(p))
         if cfg.get('traits_file'):
             out.append('// ===== traits (prelude + E10) =====')
             out.append(self.process_traits())
         # pre-pass (E2): types whose derived PartialEq cannot be given a spec (contain Vec/BTreeMap/BTreeSet, transitively)
         structs = {}
         for modpath, rel in cfg['modules']:
-            src0 = strip_comments(open(os.path.join(cfg['root'], rel)).read())
+            src0 = self.read_module(rel)[0]
             for m in re.finditer(r'\bstruct\s+(\w+)[^;{]*?(\{[^}]*\}|\([^;]*\)\s*(?:where[^;]*)?;)', src0, re.S):
                 structs.setdefault(m.group(1), '')
                 structs[m.group(1)] += m.group(2)
@@ -1077,6 +1261,7 @@ class Unit:
 
         def emit_mod(modpath, depth):
             v, p = tree[modpath]
+            STD_USE = cfg.get('module_use', {}).get(modpath, globals()['STD_USE'])
             children = [m for m in tree if m and (m.rsplit('::', 1)[0] if '::' in m else '') == modpath and m != modpath]
             s = ''
             if modpath:
@@ -1096,10 +1281,11 @@ class Unit:
             out.append('pub mod voutl {\n' + STD_USE + '\n#[allow(unused_imports)] use crate::*;\nverus! {\n' + '\n'.join(helpers) + '\n} // verus!\n}')
         for p in cfg.get('postlude_files', []):
             out.append('// ===== postlude: %s =====' % p)
-            out.append(open(os.path.join(cfg['verif_root'], p)).read())
+            out.append(self.read_verif_file(p))
         out.append('fn main() {}')
         text = '\n'.join(out)
-        unused = [c.key for c in self.contracts.values() if not c.used and c.key.startswith(cfg['repo_prefix'])]
+        prefixes = tuple([cfg['repo_prefix']] + list(cfg.get('foreign_prefixes', ())))
+        unused = [c.key for c in self.contracts.values() if not c.used and re.sub(r'^impl ', '', c.key).startswith(prefixes)]
         if unused:
             raise ExtractError('lost anchor: sidecar blocks without a matching function: ' + '; '.join(unused))
         return text
@@ -1126,17 +1312,22 @@ class Unit:
 
 
 def load_contracts(dirs):
-    cs = []
+    """A block in a LATER directory replaces the block with the same key of an earlier one (unit-specific overrides, e.g. the
+    world-generic contracts of the Taproot unit); two blocks for one key inside the same directory are an error."""
+    merged = {}
     for d in dirs:
+        keys = {}
         for fn in sorted(os.listdir(d)):
             if fn.endswith('.vc'):
-                cs += parse_sidecar(os.path.join(d, fn))
-    keys = {}
-    for c in cs:
-        if c.key in keys:
-            raise SyntaxError('duplicate sidecar block for %s (%s and %s)' % (c.key, keys[c.key].file, c.file))
-        keys[c.key] = c
-    return cs
+                for c in parse_sidecar(os.path.join(d, fn)):
+                    if c.key in keys:
+                        raise SyntaxError('duplicate sidecar block for %s (%s and %s)' % (c.key, keys[c.key].file, c.file))
+                    keys[c.key] = c
+        for k, c in keys.items():
+            if k in merged:
+                c.overrides = merged[k].file
+            merged[k] = c
+    return list(merged.values())
 
 
 def build_unit(cfg):
